@@ -160,6 +160,15 @@ pub const PER_CALL_LIMIT: isize = 48 << 20;
 /// pseudo-datagrams interpreted by `run_sequence` (they start with 0xFF: LCT version 15, never a valid packet)
 pub const MARKER_CLEANUP: &[u8] = b"\xFFVH-CLEANUP";
 pub const MARKER_REUSE_FDT_ID: &[u8] = b"\xFFVH-REUSE-FDT-ID";
+/// first element of a sequence: prefix + u32 object_max_cache_size + u32 allowed growth of the live heap (bytes, BE)
+pub const MARKER_BUDGET: &[u8] = b"\xFFVH-BUDGET";
+
+pub fn budget_marker(cache: u32, allowed: u32) -> Vec<u8> {
+    let mut v = MARKER_BUDGET.to_vec();
+    v.extend(cache.to_be_bytes());
+    v.extend(allowed.to_be_bytes());
+    v
+}
 
 pub fn rx_config() -> RxConfig {
     RxConfig {
@@ -186,11 +195,27 @@ pub fn run_sequence(
     let mut st = SeqStats::default();
     let script = Script { keep_data: 4096, ..Default::default() };
     let (builder, log) = MonBuilder::new(script);
-    let mut rx = MultiReceiver::new(builder.clone(), Some(rx_config()), false);
+    let mut cfg = rx_config();
+    // (cache, allowed growth of the live heap over the whole sequence)
+    let mut budget: Option<(usize, isize)> = None;
+    if let Some(f) = seq.first() {
+        if f.starts_with(MARKER_BUDGET) && f.len() == MARKER_BUDGET.len() + 8 {
+            let o = MARKER_BUDGET.len();
+            let cache = u32::from_be_bytes([f[o], f[o + 1], f[o + 2], f[o + 3]]) as usize;
+            let allowed = u32::from_be_bytes([f[o + 4], f[o + 5], f[o + 6], f[o + 7]]) as isize;
+            cfg.object_max_cache_size = Some(cache);
+            budget = Some((cache, allowed));
+        }
+    }
+    let mut rx = MultiReceiver::new(builder.clone(), Some(cfg), false);
     let now = util::at(1000);
     let mut aborted = false;
     alloc::reset_peak();
+    let heap_at_start = alloc::live();
     for (i, b) in seq.iter().enumerate() {
+        if b.starts_with(MARKER_BUDGET) {
+            continue;
+        }
         if b.as_slice() == MARKER_CLEANUP {
             // not a datagram: the application calls cleanup() here
             let _ = util::guarded(|| rx.cleanup(now));
@@ -232,6 +257,17 @@ pub fn run_sequence(
     }
     st.peak = alloc::peak();
     st.max_req = alloc::max_req();
+    if let Some((cache, allowed)) = budget {
+        let growth = st.peak - heap_at_start;
+        if std::env::var("VH_BUDGET_DEBUG").is_ok() {
+            eprintln!("budget: growth {} allowed {} pushes {} err {} :: {}", growth, allowed, st.pushes, st.err, describe());
+        }
+        if !aborted && growth > allowed {
+            out.push(Violation::new("alloc_beyond_budget", format!("the live heap grew by {} bytes over {} pushes of well-formed packets for one undecodable object (object_max_cache_size {}, allowed {})",
+                growth, st.pushes, cache, allowed))
+                .witness(json!({"what": describe(), "growth": growth, "allowed": allowed, "pushes": st.pushes, "errors": st.err})));
+        }
+    }
     if aborted {
         // the receiver state after a panic is undefined: drop it without judging probes
         let _ = util::guarded(move || drop(rx));
